@@ -172,12 +172,13 @@ const (
 	KMisuse
 	KDumpLoad
 	KStats
+	KRegType // register one more (filler) component type: crosses mask-word boundaries while wrappers exist
 	NKinds
 )
 
 var kindNames = []string{"NewEntity", "NewBatch", "Add", "Remove", "Exchange", "Set", "Write", "SetRel", "Copy", "RemoveEntity",
 	"AddBatch", "RemoveBatch", "ExchangeBatch", "SetRelBatch", "RemoveEntities", "Reset", "Shrink", "RegFilter", "UnregFilter",
-	"RegObs", "UnregObs", "AddRes", "RemoveRes", "OpenQuery", "StepQuery", "CloseQuery", "Emit", "Misuse", "DumpLoad", "Stats"}
+	"RegObs", "UnregObs", "AddRes", "RemoveRes", "OpenQuery", "StepQuery", "CloseQuery", "Emit", "Misuse", "DumpLoad", "Stats", "RegType"}
 
 func (k Kind) String() string { return kindNames[k] }
 
